@@ -126,6 +126,27 @@ func (m *Model) RunLoadErr(s *Sink, rule string) {
 							}
 						}
 					}
+					// `err` re-used for a second call made only when the first succeeded (`if err == nil { …, err = g() }; if err
+					// != nil { return … }`): arriving from the edge on which the merged value is this very error, it is non-nil
+					if iff, isIf := b.Instrs[len(b.Instrs)-1].(*ssa.If); isIf && pred != nil && only < 0 {
+						if bo, isBo := iff.Cond.(*ssa.BinOp); isBo && (bo.Op == token.EQL || bo.Op == token.NEQ) {
+							for _, pr := range [][2]ssa.Value{{bo.X, bo.Y}, {bo.Y, bo.X}} {
+								phi, isPhi := pr[0].(*ssa.Phi)
+								if !isPhi || phi.Block() != b || !isNilConst(pr[1]) {
+									continue
+								}
+								for i, p := range b.Preds {
+									if p == pred && i < len(phi.Edges) && phi.Edges[i] == e.v {
+										if bo.Op == token.NEQ {
+											only = 0
+										} else {
+											only = 1
+										}
+									}
+								}
+							}
+						}
+					}
 					for si, sc := range b.Succs {
 						if only >= 0 && si != only {
 							continue
